@@ -122,7 +122,9 @@ class Module:
                 self.renamed[qual] = {
                     'rename': script['rename'],
                     'swapped_operands': len(script['swap']),
-                    'dropped_inert_statements': len(script['drop'])}
+                    'dropped_inert_statements': len(script['drop']),
+                    'mirrored_comparisons': len(script['mirror']),
+                    'inverted_ifs': len(script['invert'])}
 
     def _index(self):
         for st in self.tree.body:
@@ -259,6 +261,7 @@ def alpha_map(ref, cur):
     clocals = _locals_of(cur)
     fwd, back = {}, {}
     swaps, drops = [], []
+    mirrors, inverts = [], []
     used = {}
     for n in ast.walk(cur):
         if isinstance(n, ast.Name) and isinstance(n.ctx, ast.Load):
@@ -287,14 +290,17 @@ def alpha_map(ref, cur):
             for x in ast.walk(n))
 
     def snapshot():
-        return dict(fwd), dict(back), len(swaps), len(drops)
+        return (dict(fwd), dict(back), len(swaps), len(drops),
+                len(mirrors), len(inverts))
 
     def restore(snap):
-        f, b, ns, nd = snap
+        f, b, ns, nd, nm, ni = snap
         fwd.clear(); fwd.update(f)
         back.clear(); back.update(b)
         del swaps[ns:]
         del drops[nd:]
+        del mirrors[nm:]
+        del inverts[ni:]
 
     def cmp_body(rl, cl):
         """statement lists: cl may contain extra inert statements"""
@@ -333,6 +339,37 @@ def alpha_map(ref, cur):
                     for kr, kc in zip(r.keywords, c.keywords))
             if isinstance(r, ast.arg):
                 return name(r.arg, c.arg)
+            if isinstance(r, ast.Compare) and len(r.ops) == 1 and \
+                    len(c.ops) == 1:
+                snap = snapshot()
+                if type(r.ops[0]) is type(c.ops[0]) and cmp(
+                        r.left, c.left) and cmp(r.comparators[0],
+                                                c.comparators[0]):
+                    return True
+                restore(snap)
+                mir = _MIRROR_OP.get(type(c.ops[0]))
+                if mir is type(r.ops[0]) and cmp(
+                        r.left, c.comparators[0]) and cmp(
+                            r.comparators[0], c.left):
+                    mirrors.append(c)
+                    return True
+                restore(snap)
+                return False
+            if isinstance(r, ast.If) and isinstance(c, ast.If):
+                snap = snapshot()
+                if cmp(r.test, c.test) and cmp_body(
+                        r.body, c.body) and cmp_body(r.orelse, c.orelse):
+                    return True
+                restore(snap)
+                if isinstance(c.test, ast.UnaryOp) and isinstance(
+                        c.test.op, ast.Not) and c.orelse and r.orelse and \
+                        cmp(r.test, c.test.operand) and cmp_body(
+                            r.body, c.orelse) and cmp_body(r.orelse,
+                                                           c.body):
+                    inverts.append(c)
+                    return True
+                restore(snap)
+                return False
             if isinstance(r, ast.BinOp) and isinstance(
                     r.op, (ast.Add, ast.Mult)) and type(r.op) is type(c.op):
                 snap = snapshot()
@@ -381,14 +418,26 @@ def alpha_map(ref, cur):
     if not ok:
         return None
     mapping = {c: r for c, r in fwd.items() if c != r}
-    if not mapping and not swaps and not drops:
+    if not mapping and not swaps and not drops and not mirrors and \
+            not inverts:
         return None
-    return {'rename': mapping, 'swap': swaps, 'drop': drops}
+    return {'rename': mapping, 'swap': swaps, 'drop': drops,
+            'mirror': mirrors, 'invert': inverts}
+
+
+_MIRROR_OP = {ast.Lt: ast.Gt, ast.Gt: ast.Lt, ast.LtE: ast.GtE,
+              ast.GtE: ast.LtE, ast.Eq: ast.Eq, ast.NotEq: ast.NotEq}
 
 
 def apply_alignment(node, script):
     for b in script['swap']:
         b.left, b.right = b.right, b.left
+    for c in script.get('mirror', []):
+        c.left, c.comparators[0] = c.comparators[0], c.left
+        c.ops[0] = _MIRROR_OP[type(c.ops[0])]()
+    for i in script.get('invert', []):
+        i.test = i.test.operand
+        i.body, i.orelse = i.orelse, i.body
     for lst, st in script['drop']:
         if st in lst:
             lst.remove(st)
